@@ -1,7 +1,7 @@
 (* C15 for C10: the separation clause of the canonical DAG commutes with every one-to-one renaming of the ORIGINAL nodes,
    whatever (fresh) names the two runs choose for the latent nodes; the domain predicate is_admg is equivariant and
    order-free.  (The structure clause numbers the latent nodes by their position in the SORTED list of bidirected edges,
-   which a non-monotone renaming permutes: it is covered here through its consequence, the separation clause.) *)
+   which a non-monotone renaming permutes: that clause is treated in C15/Equiv_C10s.v.) *)
 From Coq Require Import List Arith Bool Lia.
 From PG Require Import Base.ListSet Base.Closure Graph.MGraph Graph.MSep Graph.Walks Graph.Rename Graph.RenameMore
   C10.Model C10.Spec C10.ProofsSep C10.Proofs.
